@@ -22,20 +22,21 @@ BASES = {
           "E\te3\ts2+\ts3+\t2\t6\t3\t7\t*",
           "G\tg1\ts2+\ts3+\t5\t*", "F\ts1\tr1+\t0\t5\t0\t5\t*",
           "O\to1\ts1+ s2+", "U\tu1\ts1 e2", "U\tu2\tu1 o1"],
- # gap listed in a set, two gaps on one end, two fragments, nested ordered groups
+ # gap listed in a set, two gaps on one end, two fragments, nested ordered groups, containment E with the contained segment first
  # (the set arrives before the gap and the segment it lists)
  "gfa2b": ["U\tu1\tg1 s3", "S\ts1\t10\t*", "S\ts2\t10\t*", "S\ts3\t10\t*",
            "E\te1\ts1+\ts2+\t5\t10$\t0\t5\t*", "E\te2\ts1+\ts2+\t6\t10$\t0\t4\t*",
            "G\tg1\ts1+\ts2+\t5\t*", "G\tg2\ts1+\ts3-\t7\t*",
            "F\ts1\tr1+\t0\t5\t0\t5\t*", "F\ts1\tr2-\t0\t5\t0\t5\t*",
-           "O\to1\ts1+ e1+ s2+", "O\to2\to1- s1-"],
+           "O\to1\ts1+ e1+ s2+", "O\to2\to1- s1-",
+           "S\ts5\t4\t*", "E\te5\ts5+\ts1+\t0\t4$\t3\t7\t*"],          # a containment whose first segment is the contained one
 }
 
 NAMES = {
  "gfa1": ["s1", "s2", "s3", "s4", "p1", "p2", "l3", "zz"],
  "gfa1b": ["s1", "s2", "s3", "p1", "zz"],
  "gfa2": ["s1", "s2", "s3", "s4", "e1", "e2", "e3", "e5", "g1", "o1", "u1", "u2", "u5", "zz"],
- "gfa2b": ["s1", "s2", "s3", "e1", "e2", "g1", "g2", "o1", "o2", "u1", "zz"],
+ "gfa2b": ["s1", "s2", "s3", "e1", "e2", "g1", "g2", "o1", "o2", "u1", "e5", "zz"],
 }
 
 # lines that can be added: forward references, duplicates, complements, merges
